@@ -72,11 +72,11 @@ func render(es *model.EndpointShards, locked bool) string {
 }
 
 type fenceOp struct {
-	Kind     string   `json:"op"` // update delete-service-shard delete-shard
-	Host     string   `json:"host,omitempty"`
-	Shard    string   `json:"shard"`
-	IPs      []string `json:"ips,omitempty"`
-	Preserve bool     `json:"preserve_keys,omitempty"`
+	Kind     string     `json:"op"` // update delete-service-shard delete-shard
+	Host     string     `json:"host,omitempty"`
+	Shard    string     `json:"shard"`
+	IPs      []string   `json:"ips,omitempty"`
+	Preserve bool       `json:"preserve_keys,omitempty"`
 	Obs      []fenceObs `json:"observed"`
 }
 
